@@ -841,7 +841,26 @@ def sum_int_from(ex, st, func, args, dest_ty):
     t = args[0].t if wd == ws else (z3.SignExt(wd - ws, args[0].t) if ss else z3.ZeroExt(wd - ws, args[0].t))
     return [(st, BV(t, sd))]
 
+def sum_box_uninit(ex, st, func, args, dest_ty):
+    """Box::<[T; N]>::new_uninit(): a fresh box object (the first half of `vec![..]`)"""
+    return [(st, ObjV(st.new_obj(st.fresh_name('box'), dest_ty or 'Box')))]
+
+def sum_box_into_vec(ex, st, func, args, dest_ty):
+    """box_assume_init_into_vec_unsafe (the second half of `vec![a, b, ..]`): a Vec with the array the box was filled with"""
+    m = re.search(r'::<.*, (\d+)>$', func)
+    v = args[0]
+    try:
+        for _ in range(2): v = st.heap[v.oid][('f', None, 0)]            # Box.0: Unique, .0: NonNull
+        while isinstance(v, RefV): v = st.heap[v.oid][v.key]
+        for key in (('f', None, 1), ('f', None, 0), ('f', None, 0)): v = st.heap[v.oid][key]     # MaybeUninit.value, ManuallyDrop.0, MaybeDangling.0
+        items = [st.heap[v.oid][('f', None, i)] for i in range(int(m.group(1)))]
+    except (KeyError, AttributeError, TypeError):
+        return None
+    from .lib import seqobj
+    return [(st, seqobj(st, 'Vec', items))]
+
 GENERIC = [
+    (r'^Box::<\[.*\]>::new_uninit$', sum_box_uninit), (r'box_assume_init_into_vec_unsafe::<', sum_box_into_vec),
     (r'^<\w+ as From<\w+>>::from$|^<\w+ as Into<\w+>>::into$', sum_int_from),
     (r'^<\w+ as Ord>::(min|max)$|^(std|core)::cmp::(min|max)::<\w+>$', sum_int_minmax),
     (r'^core::str::<impl str>::len$', sum_str_len_const),
